@@ -37,8 +37,10 @@ class ProtocolVersion:
         Returns:
             True if the version format is valid
         """
-        pattern = r"^\d{4}-\d{2}-\d{2}$"
-        return bool(re.match(pattern, version))
+        # ASCII digits only, nothing after the day (not even a line break): the
+        # ordering compares these strings, so "\d" (any Unicode digit) is too wide
+        pattern = r"[0-9]{4}-[0-9]{2}-[0-9]{2}"
+        return bool(re.fullmatch(pattern, version))
 
     @staticmethod
     def is_supported(version: str) -> bool:
